@@ -410,6 +410,16 @@ pub fn search(args: &[String]) -> i32 {
                 for _ in 0..(random / 40) {
                     v.push((rand_val(&mut rng, t), rand_val(&mut rng, ty_y)));
                 }
+                // operand pairs whose exact product is at or just beyond the bounds of the type (e.g. -3 * 43 = -129 = MIN - 1 for i8)
+                for target in [t.min() - 1, t.min(), t.min() + 1, t.max() - 1, t.max(), t.max() + 1, -(t.max() + 2)] {
+                    for d in [2i128, 3, 5, 7, 9, 11, 13, 17, 31, 33, 43, 127, 129, 331, 641, -2, -3, -5, -7, -9, -11, -13, -17, -31, -33, -43] {
+                        if target % d == 0 {
+                            let q = target / d;
+                            if t.fits(d) && ty_y.fits(q) { v.push((d, q)); }
+                            if t.fits(q) && ty_y.fits(d) { v.push((q, d)); }
+                        }
+                    }
+                }
                 v
             };
             for (x, y) in pairs {
